@@ -33,6 +33,15 @@ Definition write_effect (m m' : mstate) (o : op) (r : result) : Prop :=
   | _, _ => meq m' m        (* reads, and every request answered with an error *)
   end.
 
+(* a pattern without `#` matches a parent path segment by segment *)
+Fixpoint parent_match (p : list kseg) (k : list str) : bool :=
+  match p, k with
+  | [], [] => true
+  | Wild :: p', _ :: k' => parent_match p' k'
+  | Reg s :: p', x :: k' => str_eqb s x && parent_match p' k'
+  | _, _ => false
+  end.
+
 (* what a read must answer *)
 Definition read_ok (m : mstate) (o : op) (r : result) : Prop :=
   match o with
@@ -67,6 +76,26 @@ Definition read_ok (m : mstate) (o : op) (r : result) : Prop :=
   | OLs None =>
       match r with
       | RNames l => NoDup l /\ (forall x, In x l <-> exists q e, m (x :: q) = Some e)
+      | _ => False
+      end
+  | OPLs (Some parent) =>
+      (* the distinct next segments below all parents matching the pattern; `#` is refused *)
+      let pat := kseg_parse parent in
+      match r with
+      | RNames l => NoDup l /\
+                    (forall x, In x l <-> exists P q e, parent_match pat P = true /\ m (P ++ x :: q) = Some e)
+      | RErr c => c = E_IllegalMultiWildcard /\ In Multi pat
+      | _ => False
+      end
+  | OPLs None =>
+      match r with
+      | RNames l => NoDup l /\ (forall x, In x l <-> exists q e, m (x :: q) = Some e)
+      | _ => False
+      end
+  | OLen =>
+      (* the number of keys that hold a value *)
+      match r with
+      | RLen n => exists keys, NoDup keys /\ (forall q, In q keys <-> m q <> None) /\ n = N.of_nat (length keys)
       | _ => False
       end
   | OPDelete _ pat =>
